@@ -31,7 +31,7 @@ def tasks(tier, seed):
             for cfg in ("all", "default") + ((["symmetry", "projection"], ["minmax_chains", "sum_chains"], ["duplication", "projection"], ["math", "inline"]) if tier == "thorough" else ()):
                 out.append(props.base_task(dict(e, out=o, outs=None), cfg, mode, tier, costs=True))
     # the exact syntactic comparison (iii) on a broad corpus (every pair also gets the solver verdict on voc(P) u IN)
-    broad = [e for e in props.corpus_T() if e["trait"] not in ("ast", "global", "dependency")] + props.corpus_G_all(tier, 0, 5)
+    broad = [e for e in props.corpus_T() if e["trait"] not in ("ast", "global", "dependency")] + props.corpus_D() + props.corpus_G_all(tier, 0, 5)
     for e in broad:
         hs = [list(x) for x in props.head_sigs(e["text"])]
         out.append(props.base_task(dict(e, out=hs, outs=None), "all", "inout", tier, costs=False))
